@@ -467,6 +467,42 @@ def legal_pair_programs():
                                     out.append(pr)
     return out
 
+def legal_family_programs():
+    """Deterministic enumeration: every expectation macro family x {short, long macro names} x {void, value} signature,
+    in its minimal legal form and with one extra legal clause of each kind the family admits. (A slip inside one
+    family's helper macro shows only for that family in one macro-name configuration.)"""
+    out = []
+    for kind in ("void_int", "int_int"):
+        if kind not in KINDS:
+            continue
+        term = [] if KINDS[kind].ret == "void" else [return_variants(kind, ("ok",))[0]]
+        for family in CALL_FAMILIES:
+            base = rules.family_base(family)
+            extras = [[]]
+            extras.append([with_variants(kind)[0]])
+            if base != "FORBID_CALL":
+                extras.append([side_variants(kind)[0]])
+                extras.append([seq_clauses()[0]])
+            if base == "REQUIRE_CALL":
+                extras.append([("TIMES", TIMES_POS[0])])
+                extras.append([rt_clauses()[0]])
+            for ex in extras:
+                items = list(ex) + ([] if base == "FORBID_CALL" else term)
+                for long_ in (False, True):
+                    pr = make_program(kind, family, items, **({"long_macros": True} if long_ else {}))
+                    if not evaluate(pr):
+                        out.append(pr)
+    for family in DESTRUCTION_FAMILIES:
+        for items in ([], [seq_clauses()[0]]):
+            for long_ in (False, True):
+                o = {"deathwatched": True, "virtual_dtor": True}
+                if long_:
+                    o["long_macros"] = True
+                pr = make_program("void_int", family, list(items), **o)
+                if not evaluate(pr):
+                    out.append(pr)
+    return out
+
 def strategy(group):
     if group == "legal":
         return legal_programs()
